@@ -1,17 +1,19 @@
 //! Kani proof harnesses over the real shuttle-engine / shuttle-schedulers / shuttle-std code.
 //! Built out of tree by /verif/check against a scratch copy of /repo's working tree.
+//! The same harnesses also build natively (cfg(not(kani))) against `shim`, a stand-in for the
+//! `kani` crate, for native validation and counterexample replay (src/bin/native.rs).
 #![allow(unused, clippy::all)]
 #![recursion_limit = "1024"]
 #![cfg_attr(kani, feature(stmt_expr_attributes))]
 
+#[cfg(not(kani))]
+pub mod shim;
 pub mod stubs;
-#[cfg(kani)]
 pub mod env;
-#[cfg(kani)]
-pub mod c18;
-#[cfg(kani)]
-pub mod c16;
-#[cfg(kani)]
 pub mod c09;
-#[cfg(all(kani, feature = "vc"))]
+pub mod c16;
+pub mod c18;
+#[cfg(feature = "vc")]
 pub mod c15;
+#[cfg(not(kani))]
+pub mod native_table;
